@@ -163,6 +163,7 @@ type routeInst struct {
 	mseen  []*base.LogInputCounterSet
 	alloc  *base.LogAllocator
 	recSeq int
+	fixed  bool
 }
 
 // pooledRecord builds a record the way the parser does: the field values are substrings of one pooled backing buffer
@@ -170,7 +171,11 @@ type routeInst struct {
 func (ri *routeInst) pooledRecord(keys [][]byte) *base.LogRecord {
 	// the keys start at a different offset in every record, as header lengths differ between real records
 	ri.recSeq++
-	input := bytes.Repeat([]byte{'p'}, ri.recSeq%7)
+	pad := ri.recSeq % 7
+	if ri.fixed { // records of one layout: every key lands where the previous record's key was
+		pad = 3
+	}
+	input := bytes.Repeat([]byte{'p'}, pad)
 	off := len(input)
 	for _, k := range keys {
 		input = append(input, k...)
@@ -242,6 +247,7 @@ func (r *routeComp) Impl(c Case) []string {
 				}
 				n, _ := strconv.Atoi(o.Strs[0])
 				ri = newRouteInst(n, parts, nil)
+				ri.fixed = o.Meta == "fixed-layout"
 				return "ok"
 			case "route rec":
 				rec := ri.pooledRecord(o.Bytes)
@@ -580,6 +586,24 @@ func (r *routeComp) Generate(rng *rand.Rand, n int, emit func(Case)) {
 				emit(Case{Ops: ops, Tag: "length-wrap"})
 			}
 		}
+	}
+	// records of one layout with keys of one length from one connection: the backing buffer of a released record is reused
+	// by the next one, so anything that remembers a key by reference sees the next record's key
+	sameLen := []string{"alpha", "bravo", "delta", "gamma"}
+	for i := 0; i < n/40+6; i++ {
+		arity := 1 + rng.Intn(2)
+		ops := []Op{{Name: "route new", Strs: append([]string{strconv.Itoa(arity)}, randParts(rng, arity)...), Meta: "fixed-layout"}}
+		for j := 0; j < 10; j++ {
+			t := make([]string, arity)
+			for k := range t {
+				t[k] = sameLen[rng.Intn(len(sameLen))]
+			}
+			ops = append(ops, recOp("route rec", t))
+			if rng.Intn(3) == 0 {
+				ops = append(ops, recOp("route metric", t))
+			}
+		}
+		emit(Case{Ops: ops, Tag: "fixed-layout"})
 	}
 	for i := 0; i < n/40; i++ {
 		arity := 1 + rng.Intn(3)
